@@ -6,6 +6,7 @@ formatters / IO.  Simulated: the source store behind ``open()`` (crashtest.frame
 none; exec'd code that never had a file; file gone; unreadable; truncated before / inside / after
 the failing line; replaced by other text; emptied - all injected *after* the code ran.
 """
+import os
 import re
 
 from .. import srcgen
@@ -40,7 +41,7 @@ INFO = {
 EXPECTED_PROBES = ("fault_enoent", "fault_eacces", "fault_truncate", "fault_replace", "fault_empty", "exec_origin",
                    "folded_recursion", "raise_on_last_line", "raise_on_first_lines", "multiline_statement",
                    "markup_in_source", "bad_markup_in_source", "markup_in_message", "debug_verbosity", "ignored_frames",
-                   "simple_mode", "second_render_other_ignore")
+                   "simple_mode", "second_render_other_ignore", "real_stdlib_file")
 
 _frame_mod = None
 
@@ -63,6 +64,13 @@ def gen(S, tier):
         "bad_markup": w.chance(0.12), "multiline_string": w.chance(0.3), "multiline_call": w.chance(0.3),
         "no_trailing_lines": w.chance(0.2), "odd_separators": w.chance(0.15),
     }
+    if c.chance(0.12):
+        # a failure inside a real file of the standard library: the snippet is checked against the file on disk
+        return {"class": "realfile", "raiser": c.pick(REAL_RAISERS), "verbosity": c.pick([0, 1, 2, 4]),
+                "utf8": c.chance(0.7), "ansi": c.chance(0.5), "fault": None, "ignore": None, "simple": False,
+                "depth": 1, "recursion": 0, "style": {}, "exc": {"type": "real", "msg": "", "cause": None, "context": None},
+                "two_modules": False, "ignore2": None, "same_trace": False, "verbosity2": 1, "prior_exc": None,
+                "prior_simple": False, "src_seed": 0}
     sc = {
         "depth": depth, "recursion": w.pick([0, 0, 0, 2, 5, 20]) if depth <= 6 else 0, "style": style,
         "src_seed": w.getrandbits(40), "exc": srcgen.gen_exc_spec(w),
@@ -91,12 +99,48 @@ def gen(S, tier):
     return sc
 
 
+REAL_RAISERS = ["json_loads", "ast_literal_eval", "configparser_read", "int_in_fraction", "textwrap_wrap",
+                "decimal_quantize", "shlex_split", "struct_unpack_from_lib", "email_parse", "statistics_mean"]
+
+
+def _real_raise(name):
+    import ast, configparser, fractions, json, shlex, statistics, textwrap
+    if name == "json_loads":
+        json.loads('{"a": ')
+    elif name == "ast_literal_eval":
+        ast.literal_eval("[1, 2, open('x')]")
+    elif name == "configparser_read":
+        configparser.ConfigParser().read_string("[s]\nkey value without separator\n= x")
+    elif name == "int_in_fraction":
+        fractions.Fraction("1/0")
+    elif name == "textwrap_wrap":
+        textwrap.wrap("text", width=0)
+    elif name == "decimal_quantize":
+        import decimal
+        decimal.Decimal("1").quantize(decimal.Decimal("nonsense-is-not-a-number" * 0 + "abc"))
+    elif name == "shlex_split":
+        shlex.split("unterminated 'quote")
+    elif name == "struct_unpack_from_lib":
+        import gzip, io as _io
+        gzip.GzipFile(fileobj=_io.BytesIO(b"not gzip data")).read()
+    elif name == "email_parse":
+        import email.utils
+        email.utils.parsedate_to_datetime("not a date")
+    else:
+        statistics.mean([])
+    raise AssertionError("the library call did not fail")
+
+
 def sweep(sc, tier):
+    if sc.get("class") == "realfile":
+        return []
     kinds = FAULTS[1:]
     return [dict(sc, fault=k) for k in kinds]
 
 
 def simplify(sc):
+    if sc.get("class") == "realfile":
+        return
     if sc.get("ignore2") is not None:
         yield dict(sc, ignore2=None)
     if sc.get("prior_exc"):
@@ -170,11 +214,75 @@ def execute(sc):
     return res
 
 
+def _run_real(sc, res, log):
+    """A failure inside real standard-library code; snippet checked against the file on disk."""
+    import io as _io
+    import tokenize
+    from clikit.api.io import IO, Input, Output
+    from clikit.formatter import AnsiFormatter, PlainFormatter
+    from clikit.ui.components.exception_trace import ExceptionTrace
+
+    try:
+        _real_raise(sc["raiser"])
+    except BaseException as e:
+        exc = e
+    if isinstance(exc, AssertionError) and "did not fail" in str(exc):
+        return
+    tb = exc.__traceback__
+    n = 0
+    while tb.tb_next:
+        tb = tb.tb_next
+        n += 1
+    path, lineno = tb.tb_frame.f_code.co_filename, tb.tb_lineno
+    out = SimOutputStream("out", log, ansi=sc["ansi"], utf8=sc["utf8"])
+    fm = AnsiFormatter() if sc["ansi"] else PlainFormatter()
+    io = IO(Input(SimInputStream(log, [])), Output(out, fm), Output(SimOutputStream("err", log, ansi=sc["ansi"]), fm))
+    io.set_verbosity(sc["verbosity"])
+    try:
+        ExceptionTrace(exc).render(io)
+    except Exception as e:
+        res.violate("render_raises", "realfile:" + type(e).__name__, "rendering a %s from %s raised %s: %s" % (type(exc).__name__, path, type(e).__name__, str(e)[:100]))
+        return
+    text = strip_ansi(out.data())
+    log.add("rendered_real", sc["raiser"], len(text))
+    res.probe("real_stdlib_file")
+    res.nontrivial = True
+    res.steps = n + 1
+    if type(exc).__name__ not in text:
+        res.violate("name_missing", "realfile", "class name %r missing" % type(exc).__name__)
+    for line in str(exc).split("\n"):
+        if _norm(line) and _norm(line) not in _norm(text):
+            res.violate("message_missing", "realfile", "message line %r missing" % line[:80])
+            break
+    if not os.path.isfile(path):
+        return
+    try:
+        source = open(path, encoding="utf-8").read()
+    except Exception:
+        return
+    src = srcgen.Source()
+    src.lines = source.split("\n")
+    if src.lines and src.lines[-1] == "":
+        src.lines.pop()
+    try:
+        for tok in tokenize.generate_tokens(_io.StringIO(source).readline):
+            if tok.start[0] != tok.end[0]:
+                src.multi.update(range(tok.start[0], tok.end[0] + 1))
+    except Exception:
+        return
+    for i, l in enumerate(src.lines, 1):
+        if "<" in l or "\\" in l or "\t" in l or "\x0c" in l:
+            src.markup.add(i)
+    _check_snippet(sc, res, text, src, lineno, path)
+
+
 def _run(sc, res, log, store, r):
     from clikit.api.io import IO, Input, Output
     from clikit.formatter import AnsiFormatter, PlainFormatter
     from clikit.ui.components.exception_trace import ExceptionTrace
 
+    if sc.get("class") == "realfile":
+        return _run_real(sc, res, log)
     fault = sc["fault"]
     depth = max(1, sc["depth"])
     src = srcgen.gen_module(r, depth, sc["recursion"], sc["style"])
